@@ -83,6 +83,9 @@ def run_shard(kind, k, pins, with_text=True, max_viol=10, profile='wide'):
     if with_text:
         from harness import C36_types
         text_check = C36_types.text_check
+    from harness import C36_types as _T0
+    for k_ in _T0.STATS:
+        _T0.STATS[k_] = {} if k_ == 'not_inferred_nodes' else 0
     cvars = [z3.Int(f'c{i}') for i in range(len(pins))]
     ex = shapex.ShapeExplorer(constraints=[cvars[i] == pins[i] for i in range(len(pins))], max_paths=10 ** 8,
                               max_decisions=400)
@@ -127,7 +130,7 @@ def run_shard(kind, k, pins, with_text=True, max_viol=10, profile='wide'):
         s.add(z3.Or(pcs))
         reach = 1 if str(s.check()) == 'sat' else 0
     from harness import C36_types as _T
-    return {'kind': kind, 'k': k, 'profile': profile, 'pins': list(pins), 'text_stats': {a: b for a, b in _T.STATS.items()}, 'stats': stats, 'violations': viols, 'samples': samples,
+    return {'kind': kind, 'k': k, 'profile': profile, 'pins': list(pins), 'text_stats': {a: (dict(b) if isinstance(b, dict) else b) for a, b in _T.STATS.items()}, 'stats': stats, 'violations': viols, 'samples': samples,
             'reach': reach, 'secs': round(time.time() - t0, 2), 'solver_calls_explorer': ex.solver_calls}
 
 
